@@ -20,59 +20,15 @@ theorem mode_shaped_arr (k : String) (xs : List Val)
 
 /-- what `strictReasons = []` says for an arithmetic operator -/
 theorem arith_reasons (k : String) (hin : arithOps.contains k = true) (vs : List (Option Val))
-    (hr : strictReasons k vs = []) :
-    vs.any isBoolO = false ∧
-    (((k = "$mod" || k = "$pow") && vs.all isIntO) = false) ∧
-    ((["$ceil", "$floor", "$trunc"].contains k && vs.any isDblO) = false) ∧
-    ((k = "$add" && vs.any isDateO) = false) := by
+    (hr : strictReasons k vs = []) : vs.any isBoolO = false := by
   unfold strictReasons at hr
   rw [if_pos hin] at hr
-  simp only [List.append_eq_nil_iff, ite_nil] at hr
-  exact ⟨hr.1.1.1, hr.1.1.2, hr.1.2, hr.2⟩
-
-theorem numbers_no_date (vs : List (Option Val)) (ns : List PyNum) (h : numbers vs = some ns) :
-    vs.any isDateO = false := by
-  induction vs generalizing ns with
-  | nil => rfl
-  | cons v r ih =>
-    cases v with
-    | none => simp [numbers] at h
-    | some x =>
-      simp only [numbers] at h
-      cases hx : number x with
-      | none => simp [hx] at h
-      | some n =>
-        cases hr : numbers r with
-        | none => simp [hx, hr] at h
-        | some ms =>
-          have := ih ms hr
-          cases x <;> simp [number] at hx <;> simp [isDateO, this]
-
-theorem mul_no_date (vs : List (Option Val)) (w : Val) (h : arithN "$multiply" vs = .ok w) :
-    vs.any isDateO = false := by
-  unfold arithN at h
-  split at h
-  · simp [unmodelled] at h
-  · split at h
-    · split at h
-      · rename_i hall
-        apply List.any_eq_false.mpr
-        intro o ho hdte
-        cases o with
-        | none => simp [isDateO] at hdte
-        | some x =>
-          cases x <;> simp [isDateO] at hdte
-          have := List.all_eq_true.mp hall _ (List.mem_filter.mpr ⟨ho, by simp [nullish]⟩)
-          simp [number] at this
-      · simp [unmodelled] at h
-    · cases hn : numbers vs with
-      | some ns => exact numbers_no_date vs ns hn
-      | none => simp [hn] at h
+  simpa [ite_nil] using hr
 
 /-- `$add`, `$multiply` -/
 theorem nary_case (c : Ctx) (hign : c.ign = true) (k : String) (hk : k = "$add" ∨ k = "$multiply")
     (xs : List Val) (vs : List (Option Val)) (h1 : xs.map (eval c) = vs.map .ok)
-    (hr : strictReasons k vs = []) (r : Option Val) (hs : applyStrict k vs = .ok r) :
+    (r : Option Val) (hs : applyStrict k vs = .ok r) :
     eval c (.doc [(k, .arr xs)]) = .ok r := by
   cases h2 : arithN k vs with
   | error e =>
@@ -81,20 +37,15 @@ theorem nary_case (c : Ctx) (hign : c.ign = true) (k : String) (hk : k = "$add" 
     have hw : r = some w := by
       rcases hk with rfl | rfl <;> simp [applyStrict, h2, Except.map] at hs <;> exact hs.symm
     subst hw
-    have hd : vs.any isDateO = false := by
-      rcases hk with rfl | rfl
-      · have := (arith_reasons "$add" (by decide) vs hr).2.2.2
-        simpa using this
-      · exact mul_no_date vs w h2
-    have hp := nary_pure k hk vs hd w h2
+    have hp := nary_pure k hk vs w h2
     have hcls : classify k = .arith := by rcases hk with rfl | rfl <;> decide
     have hm : mode k (.arr xs) = .shaped := mode_shaped_arr k xs (by rcases hk with rfl | rfl <;> simp)
     have har : arityErr k xs.length = none := by
       rcases hk with rfl | rfl <;> simp [arityErr, binaryArithOps, comparisonOps]
     have hl : listOps.contains k = true := by rcases hk with rfl | rfl <;> decide
-    have hpm : usesParseMany k = true := by rcases hk with rfl | rfl <;> decide
+    have hpm : nullOnMissing true k = true := by rcases hk with rfl | rfl <;> decide
     rw [eval_list c k xs .arith hcls (by simp) (by simp) (by simp) hm har hl]
-    rw [hpm, hign, Bool.and_self, evalList_ok c true xs vs h1, allSome_manyTrue]
+    rw [hign, hpm, evalList_ok c true xs vs h1, allSome_manyTrue]
     rcases hk with rfl | rfl <;> simp [Except.bind, applyList, hp, Except.map]
 
 theorem map_eq_two {α β} (f : α → β) (xs : List α) (a b : β) (h : xs.map f = [a, b]) :
@@ -117,14 +68,11 @@ theorem binary_case (c : Ctx) (hign : c.ign = true) (k : String)
     | ok w =>
       simp [h2, Except.map] at hs'; subst hs'
       have hin : arithOps.contains k = true := by rcases hk with rfl | rfl | rfl | rfl <;> decide
-      obtain ⟨rb, rint, _, _⟩ := arith_reasons k hin [a, b] hr
+      have rb := arith_reasons k hin [a, b] hr
       have hbb : isBoolO b = false := by
         simp only [List.any_cons, List.any_nil, Bool.or_false, Bool.or_eq_false_iff] at rb
         exact rb.2
-      have hint : (k = "$mod" ∨ k = "$pow") → ¬ (isIntO a = true ∧ isIntO b = true) := by
-        intro hmp ⟨ia, ib⟩
-        rcases hmp with rfl | rfl <;> simp [ia, ib] at rint
-      have hp := binary_pure k hk a b hbb hint w h2
+      have hp := binary_pure k hk a b hbb w h2
       have hlen : xs.length = 2 := by simpa using congrArg List.length h1
       have hcls : classify k = .arith := by rcases hk with rfl | rfl | rfl | rfl <;> decide
       have hm : mode k (.arr xs) = .shaped :=
@@ -132,13 +80,13 @@ theorem binary_case (c : Ctx) (hign : c.ign = true) (k : String)
       have har : arityErr k xs.length = none := by
         rw [hlen]; rcases hk with rfl | rfl | rfl | rfl <;> decide
       have hl : listOps.contains k = true := by rcases hk with rfl | rfl | rfl | rfl <;> decide
-      have hpm : usesParseMany k = true := by rcases hk with rfl | rfl | rfl | rfl <;> decide
+      have hpm : nullOnMissing true k = true := by rcases hk with rfl | rfl | rfl | rfl <;> decide
       have hbin : binaryArithOps.contains k = true := by
         rcases hk with rfl | rfl | rfl | rfl <;> decide
       have hnot : (k = "$add" || k = "$multiply") = false := by
         rcases hk with rfl | rfl | rfl | rfl <;> decide
       rw [eval_list c k xs .arith hcls (by simp) (by simp) (by simp) hm har hl]
-      rw [hpm, hign, Bool.and_self, evalList_ok c true xs [a, b] h1, allSome_manyTrue]
+      rw [hign, hpm, evalList_ok c true xs [a, b] h1, allSome_manyTrue]
       have hbin' : k ∈ binaryArithOps := by simpa using hbin
       have hnot' : ¬ (k = "$add" ∨ k = "$multiply") := by simpa using hnot
       simp [Except.bind, applyList, hnot', hbin', nulled, hp, Except.map]
@@ -146,54 +94,66 @@ theorem binary_case (c : Ctx) (hign : c.ign = true) (k : String)
   | [_], hs, _, _ => rcases hk with rfl | rfl | rfl | rfl <;> simp [applyStrict] at hs
   | _ :: _ :: _ :: _, hs, _, _ => rcases hk with rfl | rfl | rfl | rfl <;> simp [applyStrict] at hs
 
+/-- how `eval` runs a comparison: both operands through `_parse_or_nothing`, then `compareOpt` -/
+theorem eval_cmp (c : Ctx) (k : String)
+    (hk : k = "$eq" ∨ k = "$ne" ∨ k = "$gt" ∨ k = "$gte" ∨ k = "$lt" ∨ k = "$lte")
+    (xs : List Val) (hlen : xs.length = 2) :
+    eval c (.doc [(k, .arr xs)]) =
+      (evalAll c xs).bind (fun rs =>
+        match rs with
+        | [a, b] => (compareOpt k a b).map some
+        | _ => .error .other) := by
+  have hcls : classify k = .comparison := by
+    rcases hk with rfl | rfl | rfl | rfl | rfl | rfl <;> decide
+  have hm : mode k (.arr xs) = .shaped :=
+    mode_shaped_arr k xs (by rcases hk with rfl | rfl | rfl | rfl | rfl | rfl <;> simp)
+  have har : arityErr k xs.length = none := by
+    rw [hlen]; rcases hk with rfl | rfl | rfl | rfl | rfl | rfl <;> decide
+  have hl : ¬ k ∈ listOps := by
+    rcases hk with rfl | rfl | rfl | rfl | rfl | rfl <;> decide
+  have hcmp : k ∈ comparisonOps := by
+    rcases hk with rfl | rfl | rfl | rfl | rfl | rfl <;> decide
+  have hand : ¬ k = "$and" := by rcases hk with rfl | rfl | rfl | rfl | rfl | rfl <;> decide
+  have hor : ¬ k = "$or" := by rcases hk with rfl | rfl | rfl | rfl | rfl | rfl <;> decide
+  have hcond : ¬ k = "$cond" := by rcases hk with rfl | rfl | rfl | rfl | rfl | rfl <;> decide
+  have hifn : ¬ k = "$ifNull" := by rcases hk with rfl | rfl | rfl | rfl | rfl | rfl <;> decide
+  have hsize : ¬ k = "$size" := by rcases hk with rfl | rfl | rfl | rfl | rfl | rfl <;> decide
+  have hslice : ¬ k = "$slice" := by rcases hk with rfl | rfl | rfl | rfl | rfl | rfl <;> decide
+  simp only [eval, List.length_singleton, Nat.lt_irrefl, decide_false, Bool.false_and,
+    Bool.false_eq_true, if_false, evalDoc, hcls, hm, evalOp, har, List.contains_eq_mem, hl, hcmp,
+    decide_false, decide_true, hand, hor, hcond, hifn, hsize, hslice, if_true, bind, Except.bind]
+  cases evalAll c xs with
+  | error e => rfl
+  | ok rs => rfl
+
+/-- a comparison with a missing operand: missing sorts below everything, on both sides -/
+theorem compare_missing (k : String)
+    (hk : k = "$eq" ∨ k = "$ne" ∨ k = "$gt" ∨ k = "$gte" ∨ k = "$lt" ∨ k = "$lte")
+    (a b : Option Val) (hm : a = none ∨ b = none) :
+    compareOpt k a b = cmpHoldsOrd k (ordOpt a b) := by
+  rcases hk with rfl | rfl | rfl | rfl | rfl | rfl <;>
+    cases a <;> cases b <;> simp at hm <;> simp [compareOpt, cmpHoldsOrd, ordOpt]
+
 /-- `$eq $ne $gt $gte $lt $lte` -/
 theorem compare_case (c : Ctx) (k : String)
     (hk : k = "$eq" ∨ k = "$ne" ∨ k = "$gt" ∨ k = "$gte" ∨ k = "$lt" ∨ k = "$lte")
     (xs : List Val) (vs : List (Option Val)) (h1 : xs.map (eval c) = vs.map .ok)
     (hr : strictReasons k vs = []) (r : Option Val) (hs : applyStrict k vs = .ok r) :
     eval c (.doc [(k, .arr xs)]) = .ok r := by
-  have hna : arithOps.contains k = false := by
-    rcases hk with rfl | rfl | rfl | rfl | rfl | rfl <;> decide
-  have hc6 : ["$eq", "$ne", "$gt", "$gte", "$lt", "$lte"].contains k = true := by
-    rcases hk with rfl | rfl | rfl | rfl | rfl | rfl <;> decide
   match vs, hs, hr, h1 with
-  | [some a, some b], hs, hr, h1 =>
-    have hs' : (cmpHoldsOrd k (ord a b)).map some = .ok r := by
-      rcases hk with rfl | rfl | rfl | rfl | rfl | rfl <;> simpa [applyStrict, ordOpt] using hs
-    have hp := compare_pure k hk a b hr
+  | [a, b], hs, hr, h1 =>
+    have hs' : (cmpHoldsOrd k (ordOpt a b)).map some = .ok r := by
+      rcases hk with rfl | rfl | rfl | rfl | rfl | rfl <;> simpa [applyStrict] using hs
     have hlen : xs.length = 2 := by simpa using congrArg List.length h1
-    have hcls : classify k = .comparison := by
-      rcases hk with rfl | rfl | rfl | rfl | rfl | rfl <;> decide
-    have hm : mode k (.arr xs) = .shaped :=
-      mode_shaped_arr k xs (by rcases hk with rfl | rfl | rfl | rfl | rfl | rfl <;> simp)
-    have har : arityErr k xs.length = none := by
-      rw [hlen]; rcases hk with rfl | rfl | rfl | rfl | rfl | rfl <;> decide
-    have hl : listOps.contains k = true := by
-      rcases hk with rfl | rfl | rfl | rfl | rfl | rfl <;> decide
-    have hpm : usesParseMany k = false := by
-      rcases hk with rfl | rfl | rfl | rfl | rfl | rfl <;> decide
-    have hcmp : comparisonOps.contains k = true := by
-      rcases hk with rfl | rfl | rfl | rfl | rfl | rfl <;> decide
-    have hnot : (k = "$add" || k = "$multiply") = false := by
-      rcases hk with rfl | rfl | rfl | rfl | rfl | rfl <;> decide
-    have hnb : binaryArithOps.contains k = false := by
-      rcases hk with rfl | rfl | rfl | rfl | rfl | rfl <;> decide
-    rw [eval_list c k xs .comparison hcls (by simp) (by simp) (by simp) hm har hl]
-    rw [hpm, Bool.false_and, evalList_ok c false xs [some a, some b] h1]
-    have hcmp' : k ∈ comparisonOps := by simpa using hcmp
-    have hnb' : k ∉ binaryArithOps := by simpa using hnb
-    have hnot' : ¬ (k = "$add" ∨ k = "$multiply") := by simpa using hnot
-    simp [allSome, manyItem, Except.bind, applyList, hnot', hnb', hcmp', hp, hs']
-  | [none, _], _, hr, _ =>
-    exfalso
-    unfold strictReasons at hr
-    rw [if_neg (by simpa using hna), if_pos hc6] at hr
-    simp at hr
-  | [some _, none], _, hr, _ =>
-    exfalso
-    unfold strictReasons at hr
-    rw [if_neg (by simpa using hna), if_pos hc6] at hr
-    simp at hr
+    have hp : compareOpt k a b = cmpHoldsOrd k (ordOpt a b) := by
+      cases a with
+      | none => exact compare_missing k hk none b (Or.inl rfl)
+      | some x =>
+        cases b with
+        | none => exact compare_missing k hk (some x) none (Or.inr rfl)
+        | some y => simpa [compareOpt, ordOpt] using compare_pure k hk x y hr
+    rw [eval_cmp c k hk xs hlen, evalAll_ok c xs [a, b] h1]
+    simp only [Except.bind, hp, hs']
   | [], hs, _, _ =>
     rcases hk with rfl | rfl | rfl | rfl | rfl | rfl <;> simp [applyStrict] at hs
   | [_], hs, _, _ =>
